@@ -129,6 +129,16 @@ Theorem C19_filter_absent_dropped : forall cols ts1 t ts2 rows, term_valid cols 
   load_filtered cols (ts1 ++ t :: ts2) rows = load_filtered cols (ts1 ++ ts2) rows.
 Proof. exact filter_absent_dropped. Qed.
 
+(* The draw filter selects columns and never touches rows: the columns returned are a sub-sequence of the stored ones -
+   exactly the stored ones among those requested; (the term itself, being over the non-column `draw`, is dropped from the
+   row filter by C19_filter_absent_dropped). *)
+Theorem C19_draw_filter_columns : forall stored request,
+  sublist (select_columns stored request) stored /\ select_columns stored None = stored /\
+  forall cols c, In c (select_columns stored (Some cols)) <-> In c stored /\ In c cols.
+Proof.
+  intros stored request. split; [apply select_columns_sublist|]. split; [reflexivity|]. intros cols c. apply select_columns_spec.
+Qed.
+
 (* ---- non-vacuity: a history with accepted and rejected operations of every kind ends in the expected state, with the
    expected outcomes; the two repaired defect classes are exercised (overlapping keys, put-failing frame) ---- *)
 Definition rt_id (b : bool) (i : Z) : Z := i.
@@ -170,3 +180,4 @@ Print Assumptions C19_listed_rejections.
 Print Assumptions C19_clear_reopen_neutral.
 Print Assumptions C19_filter_restricts.
 Print Assumptions C19_filter_absent_dropped.
+Print Assumptions C19_draw_filter_columns.
